@@ -34,6 +34,13 @@ theorem gen_dispatch_eq (ext : String) :
     dispatch ext = (if ext ∈ Gen.dispatchYaml then .yaml else if ext ∈ Gen.dispatchPython then .python else .unknown) := by
   simp [dispatch, Gen.dispatchYaml, Gen.dispatchPython]
 
+/-- `core/main.py` as written in the source: `run` queues `_load_services` as an asyncio payload and then calls
+`runtime.accept()` bare (what accept raises leaves the process: `exitStatus`), `_load_services` holds the loaded
+configuration inside `with load(path)` until it is cancelled - the model's `daemonStart` -/
+theorem gen_daemon_start :
+    Gen.daemonStart = ["adopt:_load_services:asyncio", "accept"] ∧
+    daemonStart = [.adopt loader .aio, .acceptBegin 0] := ⟨rfl, rfl⟩
+
 /-- the daemon's start is a behaviour of the runtime: the loader is queued as an asyncio
 payload and the runtime begins to accept -/
 theorem start_reachable : ∃ s, run St.init daemonStart = some s ∧ s.pay loader = .queued ∧
